@@ -175,8 +175,22 @@ Definition wb_flush (b : wblock) : res wblock :=
 Definition wb_into_lines (b : wblock) : res (list tline) :=
   do b1 <- wb_flush b; Ok (wtext b1).
 
+(* the elements of a word split into (everything up to its last element with content, the markers
+   that trail it); for a word without content: ([], the whole word) *)
+Fixpoint trailing_frags (w : list elem) : list elem * list elem :=
+  match w with
+  | [] => ([], [])
+  | e :: w' =>
+    let '(p, t) := trailing_frags w' in
+    match p with
+    | [] => if elem_has_content e then ([e], t) else ([], e :: t)
+    | _ :: _ => (e :: p, t)
+    end
+  end.
+
+(* the markers that trail the last text of the pending word go to the next line *)
 Definition take_trailing_fragments (b : wblock) : wblock * list elem :=
-  if word_is_empty (wword b) then (set_word b [] (wordlen b), wword b) else (b, []).
+  let '(p, t) := trailing_frags (wword b) in (set_word b p (wordlen b), t).
 
 (* tab loop: `while pos % 8 != 0 || !at_least_one_space`.  t = the local `tag`; tw = what `tag`
    becomes when the tab crosses the width (wrap_tag in Pre mode, else unchanged); the boolean
